@@ -12,3 +12,7 @@ import Fir.Props.C03
 #print axioms Fir.C03.span_le_window
 #print axioms Fir.C03.window_size_le_in_size
 #print axioms Fir.C03.idealGeom_in_source
+#print axioms Fir.C03.sample_index_lt
+#print axioms Fir.C03.two_pass_reads_in_bounds
+#print axioms Fir.C03.doConvolution_temp_reads_in_bounds
+#print axioms Fir.C03.window_ieee
